@@ -23,6 +23,16 @@ Streams (every run)
           statement on the same entity, `protected ::` statements, repeated access words,
           constructor interfaces, components after CONTAINS ...): correspondence only.
 
+Families (round 5).  "Entities of a submodule stay private" also covers the bodies of separate module procedures: a
+          module with `module subroutine/function` interface bodies (accessibility by default or by access statement),
+          a child submodule and now and then a grandchild submodule that implement them in the short form
+          (`module procedure f ... end procedure`, FORD's `modprocedures`) or the long form (`module subroutine f(...)`,
+          after correlate in `modsubroutines` / `modfunctions`).  Every unit of a family is a case of its own (cell
+          `submodule x implementation` of the table, 5 % of the wild stream); the units of a family are parsed and
+          correlated in one project, the model of a submodule receives the interface bodies its ancestor module makes
+          visible (`H:` fields) and follows the measured truth table "does correlate hand the interface's accessibility
+          to the implementation".  A failing submodule is stored with its ancestors (`ancestors` in the replay).
+
 Spelling (round 4).  "An access statement naming the entity" presupposes that the name in the statement and the
 name in the declaration are recognised as the same identifier.  Every case therefore carries a *spelling*
 (`decorate`): each entity-decl is written name / NAME / Name, with blanks, array-spec, coarray-spec, char-length,
@@ -73,6 +83,10 @@ TAB_OF = {"var": "vars", "type": "types", "absiface": "absints", "func": "procs"
 #         | ("type", name, [attrs], body) | ("iface", kind, name, [procs]) | ("proc", is_func, name)
 #           (procs of a generic interface: "mp_x" = `module procedure x` reference, anything else = the name of
 #            a specific procedure declared by an interface body; `model_view` splits them: procs, refs)
+#         | ("impl", form, name)   body of a separate module procedure in the procedure part: form "short" =
+#           `module procedure name ... end procedure`, "long" = `module subroutine/function name(...) ...`
+#           (a function iff the name starts with "mf"); the interface body of that name stands in an ancestor:
+#           ("iface", "mplain", "", [names]) = a plain interface block whose bodies carry the MODULE prefix
 #         | ("contains",) | ("other", text)
 #   body stmt := ("bare", perm) | ("contains",) | ("comp", [names], [attrs]) | ("bind", generic, [names], [attrs])
 #         | ("other", text)
@@ -131,10 +145,12 @@ def enc_stmt(s, sp=None):
     if k == "type":
         return "T:" + s[1] + ":" + "".join(acode(a) for a in s[2]) + ":" + enc_body(s[3])
     if k == "iface":
-        return "I:" + {"generic": "g", "abstract": "a", "plain": "p"}[s[1]] + ":" + s[2] + ":" + ",".join(s[3]) \
+        return "I:" + {"generic": "g", "abstract": "a", "plain": "p", "mplain": "p"}[s[1]] + ":" + s[2] + ":" + ",".join(s[3]) \
             + ":" + ",".join(s[4] if len(s) > 4 else [])
     if k == "proc":
         return ("F:" if s[1] else "S:") + s[2]
+    if k == "mproc":
+        return "M:" + s[1]
     if k == "contains":
         return "K"
     return "O"
@@ -370,9 +386,10 @@ FUN_PREFIX = ["", "", "", "pure ", "recursive ", "elemental ", "pure elemental "
               "pure integer ", "INTEGER "]
 
 
-def render_sub(rng, ind, name, module=False, body=True, bind_name=True):
-    """a subroutine (module procedure or interface body) in one of its legal spellings"""
-    pre = rng.choice(SUB_PREFIX) + ("module " if module else "")
+def render_sub(rng, ind, name, module=False, body=True, bind_name=True, fixed=False):
+    """a subroutine (module procedure or interface body) in one of its legal spellings; `fixed`: interface body and
+    implementation of a separate module procedure are written with the same characteristics (no random prefix)"""
+    pre = ("" if fixed else rng.choice(SUB_PREFIX)) + (rcase(rng, "module") + " " if module else "")
     args = rng.choice(["(x)", " (x)", "( x )"])
     suffix = rng.choice(["", "", "", " bind(c)", f' bind(C, name="c_{name}")' if bind_name else " BIND(C)"]) \
         if not module and "elemental" not in pre else ""
@@ -383,8 +400,8 @@ def render_sub(rng, ind, name, module=False, body=True, bind_name=True):
     return L
 
 
-def render_fun(rng, ind, name, module=False, body=True):
-    pre = rng.choice(FUN_PREFIX) + ("module " if module else "")
+def render_fun(rng, ind, name, module=False, body=True, fixed=False):
+    pre = ("" if fixed else rng.choice(FUN_PREFIX)) + (rcase(rng, "module") + " " if module else "")
     typed = any(w in pre.lower() for w in ("integer", "real"))
     args = rng.choice(["(x)", " (x)", "( x )"])
     if typed:
@@ -400,6 +417,12 @@ def render_fun(rng, ind, name, module=False, body=True):
             L.append(f"{ind}  r = x")
     L.append(ind + rng.choice(["end function", f"end function {name}", "END FUNCTION"]))
     return L
+
+
+def is_mfunc(name):
+    """separate module procedures: a function iff the name says so (interface body and implementation are rendered
+    independently and must agree)"""
+    return name.startswith("mf")
 
 
 def render(rng, scope, name, stmts, parent="mparent", spell=None):
@@ -449,6 +472,10 @@ def render(rng, scope, name, stmts, parent="mparent", spell=None):
             else:
                 L.append(ind + (rcase(rng, "abstract") + " " + rcase(rng, "interface") if kind == "abstract" else rcase(rng, "interface")))
                 for p in procs:
+                    if kind == "mplain":
+                        # separate module procedure whose body stands in a submodule (or nowhere)
+                        L += (render_fun if is_mfunc(p) else render_sub)(rng, ind + "  ", p, module=True, body=False, fixed=True)
+                        continue
                     module = kind == "plain" and rng.random() < 0.25  # separate module procedure (F2008 15.6.2.5)
                     if rng.random() < 0.5:
                         L += render_sub(rng, ind + "  ", p, module=module, body=False, bind_name=kind != "abstract")
@@ -457,6 +484,13 @@ def render(rng, scope, name, stmts, parent="mparent", spell=None):
                 L.append(ind + "end interface")
         elif k == "proc":
             L += render_fun(rng, ind, s[2]) if s[1] else render_sub(rng, ind, s[2])
+        elif k == "impl":
+            if s[1] == "short":
+                L.append(f"{ind}{rcase(rng, 'module')}{rng.choice([' ', ' ', '  '])}{rcase(rng, 'procedure')} {rname(rng, s[2])}")
+                L.append(f"{ind}  {'r' if is_mfunc(s[2]) else 'x'} = {'x' if is_mfunc(s[2]) else '1'}")
+                L.append(ind + rng.choice(["end procedure", f"end procedure {s[2]}", "END PROCEDURE"]))
+            else:
+                L += (render_fun if is_mfunc(s[2]) else render_sub)(rng, ind, s[2], module=True, fixed=True)
         elif k == "contains":
             L.append(rcase(rng, "contains"))
         else:
@@ -534,6 +568,10 @@ def spec_module(scope, stmts):
                     exp[("absiface" if s[1] == "abstract" else "iface", p)] = access(p, [])
         elif k == "proc":
             exp[("func" if s[1] else "sub", s[2])] = access(s[2], [])
+        elif k == "mproc":
+            # the body of a separate module procedure; in a submodule: an entity of the submodule, not accessible
+            # by use association whatever the accessibility of its interface in the ancestor module
+            exp[("mproc", s[1])] = access(s[1], [])
     # a generic interface named like a type is the same identifier: one accessibility
     for key in list(exp):
         if key[0] == "iface" and key[1] in types:
@@ -579,8 +617,10 @@ def legality(scope, stmts):
             seen_contains = True
         elif k in ("bare", "access", "var", "type", "iface") and seen_contains:
             return "specification statement after contains"
-        elif k == "proc" and not seen_contains:
+        elif k in ("proc", "impl") and not seen_contains:
             return "procedure before contains"
+        if k == "impl" and scope != "s":
+            return "implementation of a separate module procedure outside a submodule (not generated)"
         if k == "access":
             if s[1] not in PCODE:
                 continue
@@ -633,7 +673,7 @@ def legality(scope, stmts):
         elif k == "iface":
             names = ([("iface", s[2], [])] + [("spec", p, []) for p in s[3] if not p.startswith("mp_")]) \
                 if s[1] == "generic" else [("x", p, []) for p in s[3]]
-        elif k == "proc":
+        elif k in ("proc", "impl"):
             names = [("proc", s[2], [])]
         for cat, n, attrs in names:
             if scope == "s" and any(a in PCODE for a in attrs):
@@ -728,9 +768,16 @@ def classify(scope, stmts, key, expected, observed, spell=None):
             and any(s[0] == "iface" and s[1] == "generic" and s[2] == name and name in s[4] for s in stmts):
         # the module procedure of that name comes first in process_attribs, takes the statement and deletes it
         return F_SAME_NAME
-    if has_prot and expected == "private" and observed == "protected":
+    # PROTECTED and the accessibility share FORD's single permission value: the word processed last wins.  The
+    # order of processing is part of the two classes: the attributes of the declaration in the order they are
+    # written, then the attribute statements naming the variable in the order they stand in the module.  A
+    # protected variable that comes out `protected` although the word processed last is `private` (or `public`
+    # although it is `protected`) is *not* in either class.
+    processed = [a for a in attrs if a in PCODE] + [w for w in named if w in PCODE]
+    last = processed[-1] if processed else None
+    if has_prot and expected == "private" and observed == "protected" and last == "protected":
         return F_PROT_PRIV
-    if has_prot and explicit == "public" and expected == "protected" and observed == "public":
+    if has_prot and explicit == "public" and expected == "protected" and observed == "public" and last == "public":
         return F_PROT_LOST
     if explicit is None and late_private and expected == "private" and observed in ("public", "protected"):
         return F_LATE
@@ -914,6 +961,9 @@ def model_view(stmts):
         if s[0] == "iface":
             out.append(("iface", s[1], s[2], [p for p in s[3] if not p.startswith("mp_")],
                         [p[3:] for p in s[3] if p.startswith("mp_")]))
+        elif s[0] == "impl":
+            # long form: an ordinary subroutine / function of the unit; short form: a statement of its own
+            out.append(("proc", is_mfunc(s[2]), s[2]) if s[1] == "long" else ("mproc", s[2]))
         else:
             out.append(s)
     return out
@@ -1000,6 +1050,54 @@ def assemble(rng, spec_groups, access, procs, bare, bare_pos, target_idx=None, s
     return out
 
 
+def gen_family(rng, want_short=False):
+    """A module that declares separate module procedures (`module subroutine/function` interface bodies in a plain
+    interface block, accessibility by module default or by access statement) and the submodules that implement
+    them: a child, now and then a grandchild (`submodule (m:child) grandchild`), each with some declarations of its
+    own and the bodies in the short (`module procedure f`) or the long form (`module subroutine f(...)`).
+    Returns (module stmts, [(index of the parent submodule or None, submodule stmts)]); `want_short`: the last
+    submodule holds at least one short-form body."""
+    nm = Names(rng)
+    bare = rng.choice([None, None, "public", "private", "private"])
+    spec, access, procs = gen_context(rng, nm, rng.randint(0, 2), bare == "private")
+    names = [nm.new(rng.choice(["ms", "mf"])) for _ in range(rng.choice([1, 2, 2, 3, 4]))]
+    for n in names:
+        r = rng.random()
+        if r < 0.45:
+            access.append(("access", "public" if bare == "private" or rng.random() < 0.5 else "private", [n]))
+    if len(names) > 1 and rng.random() < 0.3:
+        cut = rng.randint(1, len(names) - 1)
+        groups = [[("iface", "mplain", "", names[:cut])], [("iface", "mplain", "", names[cut:])]]
+    else:
+        groups = [[("iface", "mplain", "", list(names))]]
+    for g in groups:
+        spec.insert(rng.randint(0, len(spec)), g)
+    module = assemble(rng, spec, access, procs, bare, "early")
+    todo = list(names)
+    rng.shuffle(todo)
+    subs = []
+    n_sub = 2 if rng.random() < 0.35 else 1
+    for k in range(n_sub):
+        snm = Names(rng)
+        snm.n = 100 * (k + 1)  # names of a submodule differ from those of its ancestors (no shadowing games here)
+        sspec, sprocs = [], []
+        for _ in range(rng.randint(0, 2)):
+            sp_, pr_, _n = gen_decl(rng, snm, rng.choice(["variable", "type", "subroutine", "function", "generic", "abstract"]))
+            sspec.append(sp_)
+            sprocs += pr_
+        # every separate module procedure gets at most one body; the last submodule at least one
+        take = todo if k == n_sub - 1 else todo[: rng.randint(0, len(todo) - 1)]
+        todo = todo[len(take):]
+        if rng.random() < 0.25 and k == n_sub - 1 and len(take) > 1:
+            take = take[:-1]  # an interface without a body is fine for a documentation tool
+        impls = [("impl", "short" if rng.random() < 0.6 else "long", n) for n in take]
+        if want_short and k == n_sub - 1 and not any(i[1] == "short" for i in impls):
+            impls[0] = ("impl", "short", impls[0][2])
+        sprocs += impls
+        subs.append((None if k == 0 else k - 1, assemble(rng, sspec, [], sprocs, None, None)))
+    return module, subs
+
+
 def table_cells():
     for d, a, s, k in itertools.product(
             ["none", "public-early", "public-late", "private-early", "private-late"],
@@ -1018,7 +1116,7 @@ def table_cells():
         if k in ("subroutine", "function") and s.endswith("after"):
             continue  # module procedures are declared after CONTAINS, access statements before
         yield d, a, s, k
-    for k in KINDS:
+    for k in KINDS + ["implementation"]:
         yield "submodule", "none", "none", k
 
 
@@ -1026,6 +1124,10 @@ def gen_table_case(rng, cell):
     d, a, s, k = cell
     nm = Names(rng)
     scope = "m"
+    if d == "submodule" and k == "implementation":
+        # the body of a separate module procedure in a submodule; the interface body stands in the ancestor module
+        module, subs = gen_family(rng, want_short=rng.random() < 0.7)
+        return "family", module, subs
     if d == "submodule":
         scope = "s"
         spec, access, procs = [], [], []
@@ -1077,6 +1179,9 @@ def gen_table_case(rng, cell):
 
 
 def gen_wild_case(rng):
+    if rng.random() < 0.05:
+        module, subs = gen_family(rng)
+        return "family", module, subs
     nm = Names(rng)
     scope = "s" if rng.random() < 0.12 else "m"
     stmts = []
@@ -1189,10 +1294,15 @@ def observe_unit(m):
             obs.append(("C", t.name.lower(), c.name.lower(), c.permission))
         for b in t.boundprocs:
             obs.append(("N", t.name.lower(), canon(b.name.lower()), b.permission))
-    for f in m.functions:
+    # after correlate a submodule keeps the long-form bodies of separate module procedures (`module subroutine f`)
+    # in lists of their own
+    for f in list(m.functions) + list(getattr(m, "modfunctions", [])):
         obs.append(("E", "func", f.name.lower(), f.permission, "-"))
-    for f in m.subroutines:
+    for f in list(m.subroutines) + list(getattr(m, "modsubroutines", [])):
         obs.append(("E", "sub", f.name.lower(), f.permission, "-"))
+    # ... and the short-form bodies (`module procedure f ... end procedure`)
+    for f in getattr(m, "modprocedures", []):
+        obs.append(("M", f.name.lower(), f.permission))
     for cat, lst in (("iface", m.interfaces), ("absiface", m.absinterfaces)):
         for i in lst:
             wrapper = hasattr(i, "procedure") and not getattr(i, "generic", False)
@@ -1220,6 +1330,8 @@ def parse_model(fields):
             obs.append(("E", p[1], canon(p[2]), p[3], p[4]))
         elif p[0] in ("C", "N", "P", "R"):
             obs.append((p[0], canon(p[1]), p[2], p[3]))
+        elif p[0] == "M":
+            obs.append(("M", p[1], p[2]))
         elif p[0] == "L":
             pl.append(canon(p[1]))
         elif p[0] == "X":
@@ -1381,6 +1493,24 @@ def run_impl(ford, d: Path, cases):
 # ---------------------------------------------------------------------------
 
 
+def add_units(cases, stream, cell, gen):
+    """append what a generator returned: one unit `(scope, stmts)`, or a family `("family", module, subs)` - the
+    module and every submodule become cases of their own, a submodule knows its ancestors (`anc`: indices of the
+    ancestor module and, for a grandchild, of its parent submodule)"""
+    if gen[0] != "family":
+        cases.append({"stream": stream, "cell": cell, "scope": gen[0], "stmts": gen[1], "anc": []})
+        return
+    _, module, subs = gen
+    mi = len(cases)
+    cases.append({"stream": "family", "cell": None, "scope": "m", "stmts": module, "anc": []})
+    idx = []
+    for k, (par, st) in enumerate(subs):
+        anc = [mi] + ([idx[par]] if par is not None else [])
+        cases.append({"stream": stream if k == len(subs) - 1 else "family", "cell": cell if k == len(subs) - 1 else None,
+                      "scope": "s", "stmts": st, "anc": anc})
+        idx.append(len(cases) - 1)
+
+
 def run(tier: str, seed: int, replay: str | None = None) -> int:
     from translate import c04 as tr
 
@@ -1400,26 +1530,32 @@ def run(tier: str, seed: int, replay: str | None = None) -> int:
     n_wild = 3000 if tier == "quick" else 30000
 
     cells = list(table_cells())
-    cases = []  # (stream, cell, scope, stmts, text, name)
+    cases = []  # dicts: stream, cell, scope, stmts, anc, (spell), text, name
     for cell in cells:
         for r in range(reps):
-            scope, stmts = gen_table_case(rng, cell)
-            cases.append(["table", cell, scope, stmts])
+            add_units(cases, "table", cell, gen_table_case(rng, cell))
     for _ in range(n_wild):
-        scope, stmts = gen_wild_case(rng)
-        cases.append(["wild", None, scope, stmts])
+        add_units(cases, "wild", None, gen_wild_case(rng))
     if replay:
         import json
         data = json.loads(Path(replay).read_text())
-        cases = [[c.get("stream", "replay"), tuple(c["cell"]) if c.get("cell") else None, c["scope"],
-                  _untuple(c["stmts"])] + ([c["spell"]] if c.get("spell") and len(c["spell"]) == len(c["stmts"]) else [])
-                 for c in data.get("cases", []) + data.get("first_disagreements", []) if "stmts" in c]
+        cases = []
+        for c in data.get("cases", []) + data.get("first_disagreements", []):
+            if "stmts" not in c:
+                continue
+            anc = []
+            for a_ in c.get("ancestors", []):
+                cases.append({"stream": "replay-ancestor", "cell": None, "scope": a_["scope"], "stmts": _untuple(a_["stmts"]),
+                              "anc": list(anc), "spell": a_.get("spell")})
+                anc.append(len(cases) - 1)
+            cases.append({"stream": c.get("stream", "replay"), "cell": tuple(c["cell"]) if c.get("cell") else None,
+                          "scope": c["scope"], "stmts": _untuple(c["stmts"]), "anc": anc, "spell": c.get("spell")})
     for k, c in enumerate(cases):
-        name = f"u{k}"
-        spell = c.pop() if len(c) > 4 else decorate(rng, c[3])
-        c.append(render(rng, c[2], name, c[3], spell=spell))
-        c.append(name)
-        c.append(spell)
+        c["name"] = f"u{k}"
+        if not c.get("spell") or len(c["spell"]) != len(c["stmts"]):
+            c["spell"] = decorate(rng, c["stmts"])
+        parent = ":".join(cases[i]["name"] for i in c["anc"]) if c["anc"] else "mparent"
+        c["text"] = render(rng, c["scope"], c["name"], c["stmts"], parent=parent, spell=c["spell"])
 
     # which variant of the mechanism does the code under test have? (probe of the real code)
     global VARIANT
@@ -1435,9 +1571,30 @@ def run(tier: str, seed: int, replay: str | None = None) -> int:
                        f"interface bodies of generic interfaces in the source, but the probe found the specific procedure "
                        f"{'reached' if 's' in VARIANT else 'not reached'} by the access statement")
 
-    # model
-    reqs = [["c04.run", VARIANT, c[2]] + [enc_stmt(s, q) for s, q in zip(model_view(c[3]), c[6])] for c in cases]
-    model = drv.batch(reqs)
+    if table and table.get("delAfterLoopInSource") is not None and bool(table["delAfterLoopInSource"]) != ("a" in VARIANT):
+        rep.tie_broken(f"variant probe: process_attribs was seen to forget the names of its first loop "
+                       f"{'after the loop' if table['delAfterLoopInSource'] else 'entity by entity'}, but the probe with two "
+                       f"entities of one name behaves like the {'after-loop' if 'a' in VARIANT else 'per-entity'} deletion")
+
+    # model: units without ancestors first; a submodule of a family is run with the interface bodies its ancestor
+    # module makes visible (`H:` fields, taken from the model's own result for that module)
+    def request(c, host=()):
+        return ["c04.run", VARIANT, c["scope"]] + [f"H:{n}:{PCODE[p_]}" for n, p_ in host] \
+            + [enc_stmt(s_, q) for s_, q in zip(model_view(c["stmts"]), c["spell"])]
+
+    model = [None] * len(cases)
+    first = [k for k, c in enumerate(cases) if not c["anc"]]
+    for k, mo in zip(first, drv.batch([request(cases[k]) for k in first])):
+        model[k] = mo
+    second = [k for k, c in enumerate(cases) if c["anc"]]
+    hosts = {}
+    for k in second:
+        m0 = cases[k]["anc"][0]
+        if m0 not in hosts:
+            hosts[m0] = [(f.split(":")[2], f.split(":")[3]) for f in (model[m0] or [])[1:]
+                         if f.startswith("E:iface:") and f.endswith(":w")] if model[m0] and model[m0][0] == "ok" else []
+    for k, mo in zip(second, drv.batch([request(cases[k], hosts[cases[k]["anc"][0]]) for k in second])):
+        model[k] = mo
 
     hist_spell: dict[str, int] = {}
 
@@ -1446,7 +1603,7 @@ def run(tier: str, seed: int, replay: str | None = None) -> int:
             hist_spell[k] = hist_spell.get(k, 0) + 1
 
     for c in cases:
-        for st, q in zip(c[3], c[6]):
+        for st, q in zip(c["stmts"], c["spell"]):
             if st[0] == "var":
                 for dcl in split_top(q[1]):
                     count("entity-decls")
@@ -1472,17 +1629,33 @@ def run(tier: str, seed: int, replay: str | None = None) -> int:
     hist_legal: dict[str, int] = {}
     distinct = set()
     samples = []
-    n_corr_bad = n_oracle_fail = n_entities = n_legal = n_exports = n_specifics = 0
+    n_corr_bad = n_oracle_fail = n_entities = n_legal = n_exports = n_specifics = n_impls = 0
+    hist_impl: dict[str, int] = {}
     spec_reqs = []
     spec_exp = []
     with common.scratch_dir() as d:
         CH = 400
-        for lo in range(0, len(cases), CH):
-            chunk = cases[lo:lo + CH]
-            units, log = run_impl(ford, d, [(c[5], c[4]) for c in chunk])
-            for c, mo in zip(chunk, model[lo:lo + CH]):
-                stream, cell, scope, stmts, text, name, spell = c
+        # one FORD project per chunk; a family (module + its submodules, consecutive cases) is never split
+        bounds = [0]
+        for k in range(1, len(cases)):
+            if k - bounds[-1] >= CH and not cases[k]["anc"]:
+                bounds.append(k)
+        bounds.append(len(cases))
+        for lo, hi in zip(bounds, bounds[1:]):
+            chunk = cases[lo:hi]
+            units, log = run_impl(ford, d, [(c["name"], c["text"]) for c in chunk])
+            for c, mo in zip(chunk, model[lo:hi]):
+                stream, cell, scope, stmts, text, name, spell = (c[x] for x in ("stream", "cell", "scope", "stmts", "text", "name", "spell"))
                 case = {"stream": stream, "cell": cell, "scope": scope, "stmts": stmts, "spell": spell, "source": text}
+                if c["anc"]:
+                    # the ancestors belong to the input: replayed with it, shown in front of it
+                    case["ancestors"] = [{"scope": cases[i]["scope"], "stmts": cases[i]["stmts"], "spell": cases[i]["spell"]}
+                                         for i in c["anc"]]
+                    case["source"] = "\n".join(cases[i]["text"] for i in c["anc"]) + "\n" + text
+                for st in stmts:
+                    if st[0] == "impl":
+                        key = f"{st[1]} form, {'grandchild' if len(c['anc']) > 1 else 'child'} submodule"
+                        hist_impl[key] = hist_impl.get(key, 0) + 1
                 if mo[0] != "ok":
                     rep.tie_broken(f"driver rejected {name}: {mo}", case)
                     continue
@@ -1533,7 +1706,10 @@ def run(tier: str, seed: int, replay: str | None = None) -> int:
                             got[("bind", ident(o[1]), ident(o[2]))] = o[3]
                         elif o[0] == "P":
                             got[("spec", ident(o[1]), ident(o[2]))] = o[3]
+                        elif o[0] == "M":
+                            got[("mproc", ident(o[1]))] = o[2]
                     n_entities += len(exp)
+                    n_impls += sum(1 for st in stmts if st[0] == "impl")
                     n_specifics += sum(1 for k in exp if k[0] == "spec")
                     if len(samples) < 3 and cell and cell[0].endswith("late") and cell[3] in ("type", "variable", "generic"):
                         samples.append({"cell": cell, "source": text, "observed": {":".join(k): v for k, v in got.items()}})
@@ -1608,6 +1784,8 @@ def run(tier: str, seed: int, replay: str | None = None) -> int:
         embeddings_per_cell=reps,
         entities_checked_by_oracle=n_entities,
         specific_procedures_checked_by_oracle=n_specifics,
+        implementations_of_separate_module_procedures_checked_by_oracle=n_impls,
+        implementation_histogram=dict(sorted(hist_impl.items())),
         export_table_entries_checked_by_oracle=n_exports,
         variant_of_code_under_test={"probe": VARIANT,
                                     "attr_dict_entry_deleted": "after the loop" if "a" in VARIANT else "per entity",
@@ -1638,6 +1816,13 @@ def run(tier: str, seed: int, replay: str | None = None) -> int:
         "replaced by numbered placeholders",
         "the stored permission of a `module procedure x` reference inside a generic interface (never displayed, never "
         "exported) has no specification; it is compared with the model only",
+        "every generated table (word lists, transition tables of the attribute-statement loops, what children inherit, "
+        "order of the entity lists, export words, getter, implementations of separate module procedures, name keying) is "
+        "measured by running the code under test on minimal probe programs (translate/c04.py); the structural parameters "
+        "of the model are fitted to the observed inheritance with a Python transcript of the model's rules",
+        "the body of a separate module procedure written inside the module that declares its interface (not in a "
+        "submodule) is not generated: FORD keeps an interface object and an implementation object for the one entity and "
+        "shows the latter regardless of its stored permission",
         "the variant of the model (attr_dict deletion order, place of the constructor step, loop over interface "
         "bodies, keying of generic-specs) is chosen by probing the code under test with four fixed modules; a probe "
         "result that fits no variant is a broken tie",
